@@ -10,4 +10,5 @@ def run(ctx, res):
     e3.apply(ctx, res, "C05", floor=structural.E3_FLOORS.get("C05"))
     structural.c05(ctx, res)
     # "the order reported by iteration": the iterators must walk the list correctly in both directions (C12's structural clauses)
-    structural.c12(ctx, res)
+    # (not the Drop discipline of the owning iterators: that is about ownership, not about order)
+    structural.c12(ctx, res, with_drops=False)
